@@ -471,28 +471,33 @@ Fixpoint run_steps (l : list (bstate -> step_res)) (b : bstate) : step_res :=
 
 Definition on (c : bool) (l : list string) : list string := if c then l else [].
 
-Definition deco_steps (s : spec) (auto : bool) : list (bstate -> step_res) :=
+(** The builder's steps up to the patch: what may raise, and which names the step
+    records in [_cls_dict] when it does not. *)
+Definition deco_plan (s : spec) (auto : bool) : list (option exc * list string) :=
   let o := s_o s in
-  [ check_step (chk_define_pre o) [];
-    check_step (chk_eq_order_deco o) [];
-    check_step (chk_freeze_own o) [];
+  [ (chk_define_pre o, []);
+    (chk_eq_order_deco o, []);
+    (chk_freeze_own o, []);
     (* _ClassBuilder.__init__ *)
-    check_step (chk_unannotated o auto (s_fields s)) [];
-    check_step (chk_type_conflict o auto (s_fields s)) [];
-    check_step (chk_order s auto)
-      ("__attrs_attrs__" :: on (is_frozen o) ["__setattr__"; "__delattr__"]);
-    check_step None (on (repr_gen o) ["__repr__"]);
-    check_step (chk_str o) (on (o_str o) ["__str__"]);
-    check_step None (on (negb (is_exc o) && eq_gen o) ["__eq__"; "__ne__"]);
-    check_step (chk_hooks_own s auto)
-      (on (negb (frozen_arg o) && sa_nonempty s auto) ["__attrs_own_setattr__"; "__setattr__"]);
-    check_step (chk_hash_nonbool o) [];
-    check_step (chk_cache_hash o) [];
-    check_step (chk_init_script s auto) [if init_gen o then "__init__" else "__attrs_init__"];
-    check_step (chk_cache_init o) [];
-    (* build_class: _eval_snippets, then the patch *)
-    check_step (chk_syntax s auto) [];
-    patch_step (slots o) (on (negb (these o)) (names (own_attrs o auto (s_fields s)))) ].
+    (chk_unannotated o auto (s_fields s), []);
+    (chk_type_conflict o auto (s_fields s), []);
+    (chk_order s auto, "__attrs_attrs__" :: on (is_frozen o) ["__setattr__"; "__delattr__"]);
+    (None, on (repr_gen o) ["__repr__"]);
+    (chk_str o, on (o_str o) ["__str__"]);
+    (None, on (negb (is_exc o) && eq_gen o) ["__eq__"; "__ne__"]);
+    (chk_hooks_own s auto,
+     on (negb (frozen_arg o) && sa_nonempty s auto) ["__attrs_own_setattr__"; "__setattr__"]);
+    (chk_hash_nonbool o, []);
+    (chk_cache_hash o, []);
+    (chk_init_script s auto, [if init_gen o then "__init__" else "__attrs_init__"]);
+    (chk_cache_init o, []);
+    (* build_class: _eval_snippets (compilation), then the patch *)
+    (chk_syntax s auto, []) ].
+
+Definition deco_steps (s : spec) (auto : bool) : list (bstate -> step_res) :=
+  map (fun cw => check_step (fst cw) (snd cw)) (deco_plan s auto)
+  ++ [patch_step (slots (s_o s))
+        (on (negb (these (s_o s))) (names (own_attrs (s_o s) auto (s_fields s))))].
 
 Definition decorate_run (s : spec) (b : bstate) : step_res :=
   match auto_of (s_o s) with
